@@ -1004,6 +1004,9 @@ fn resolve_text_macro_usage<T: AsRef<Path>, U: AsRef<Path>>(
             for text in split_text(&text.text) {
                 if let Some(value) = arg_map.get(&text) {
                     replaced.push_str(*value);
+                } else if text.starts_with('"') {
+                    // An ordinary string literal in the macro text is left as it is.
+                    replaced.push_str(&text);
                 } else {
                     replaced.push_str(
                         &text
